@@ -16,6 +16,12 @@ var (
 	PSMALLOneWayErrorInt int64 = -5
 )
 
+var (
+	// ConversionFailedError rejects a conversion whose amount cannot be computed
+	ConversionFailedError          = errors.New("the conversion cannot be computed with the rates of this height (no usable average or the amount overflows)")
+	ConversionFailedErrorInt int64 = -6
+)
+
 // IsRejectedTx takes an error, and returns the integer form of that error
 // if it is a rejected tx. If the error is unknown, the original error is
 // returned.
@@ -34,6 +40,9 @@ func IsRejectedTx(err error) (int64, error) {
 	}
 	if err == ZeroRatesError {
 		return ZeroRatesErrorInt, nil
+	}
+	if err == ConversionFailedError {
+		return ConversionFailedErrorInt, nil
 	}
 	return 0, err
 }
